@@ -470,7 +470,7 @@ class Sim:
         if code.co_name == "<module>":
             return None
         for tf in self.trace_files:
-            if fn.endswith(tf):
+            if fn.endswith(tf) or (tf.endswith("/") and tf in fn):
                 return self._local_tracer
         if code.co_name in self.trace_funcs:
             return self._local_tracer
